@@ -315,6 +315,18 @@ func init() {
 		"symChoose": func(fr *frame, args []value) value {
 			return fr.i.ex.ChooseNamed(concreteString(args[0]), int(asInt64(args[1])))
 		},
+		"symSkip": func(fr *frame, args []value) value {
+			// the named function is skipped (returns the zero value): a declared stub
+			if fr.i.stubs == nil {
+				fr.i.stubs = make(map[string]value)
+			}
+			fr.i.stubs[concreteString(args[0])] = skipStub{}
+			return nil
+		},
+		"symOrderMode": func(fr *frame, args []value) value {
+			installOrderMode(fr.i.ex, int(asInt64(args[0])))
+			return nil
+		},
 		"symMonitor": func(fr *frame, args []value) value {
 			installMonitor(fr.i, concreteString(args[0]))
 			return nil
@@ -608,4 +620,96 @@ func installMonitor(i *interpreter, kind string) {
 	default:
 		unsupported("unknown monitor %q", kind)
 	}
+}
+
+
+type skipStub struct{}
+
+// installOrderMode makes every later `range` over a map with >= 2 entries pick
+// its iteration order nondeterministically: the insertion order, or one of a
+// set of alternative permutations (all of them for <= 3 entries). At most d
+// range instances per path deviate from the insertion order (delay bound).
+func installOrderMode(ex *Explorer, d int) {
+	budget := d
+	if d <= 0 {
+		ex.orderHook = nil
+		return
+	}
+	ex.orderHook = func(fr *frame, m *omap) []int {
+		if budget == 0 {
+			return nil
+		}
+		var live []int
+		for i, e := range m.entries {
+			if e.alive {
+				live = append(live, i)
+			}
+		}
+		k := len(live)
+		if k < 2 {
+			return nil
+		}
+		alts := permutations(k)
+		c := ex.ChooseNamed("order", 1+len(alts))
+		if c == 0 {
+			return nil
+		}
+		budget--
+		out := make([]int, k)
+		for i, p := range alts[c-1] {
+			out[i] = live[p]
+		}
+		ex.Note(fmt.Sprintf("order %v of %d keys in %s", alts[c-1], k, fr.fn.String()))
+		return out
+	}
+}
+
+// permutations returns non-identity permutations of 0..k-1: all of them for
+// k <= 3; for larger k the reversal, the rotation by one and every adjacent
+// transposition.
+func permutations(k int) [][]int {
+	id := make([]int, k)
+	for i := range id {
+		id[i] = i
+	}
+	var out [][]int
+	if k <= 3 {
+		var rec func(cur []int, used []bool)
+		rec = func(cur []int, used []bool) {
+			if len(cur) == k {
+				same := true
+				for i, v := range cur {
+					if v != i {
+						same = false
+					}
+				}
+				if !same {
+					out = append(out, append([]int(nil), cur...))
+				}
+				return
+			}
+			for v := 0; v < k; v++ {
+				if !used[v] {
+					used[v] = true
+					rec(append(cur, v), used)
+					used[v] = false
+				}
+			}
+		}
+		rec(nil, make([]bool, k))
+		return out
+	}
+	rev := make([]int, k)
+	rot := make([]int, k)
+	for i := range id {
+		rev[i] = k - 1 - i
+		rot[i] = (i + 1) % k
+	}
+	out = append(out, rev, rot)
+	for i := 0; i+1 < k; i++ {
+		p := append([]int(nil), id...)
+		p[i], p[i+1] = p[i+1], p[i]
+		out = append(out, p)
+	}
+	return out
 }
